@@ -120,12 +120,17 @@ func roundTrip(ft fataler, ci *ctorInfo, p reflect.Value) (rejected string, encL
 		ft.Fatalf("%s: TypesConstructorMap gives %s", ci, fresh.Type())
 	}
 	mirrorGenerics(p, fresh)
-	d := bin.Buffer{Buf: append([]byte(nil), b1...)}
+	src := append([]byte(nil), b1...)
+	d := bin.Buffer{Buf: src}
 	if err := fresh.Interface().(bin.Object).Decode(&d); err != nil {
 		ft.Fatalf("%s: decode of own encoding failed: %v\nvalue: %s\nbytes: %x", ci, err, show(), b1)
 	}
 	if d.Len() != 0 {
 		ft.Fatalf("%s: decode left %d of %d bytes\nvalue: %s\nbytes: %x", ci, d.Len(), len(b1), show(), b1)
+	}
+	// the receive buffer goes on to the next message: the decoded value must not live in it
+	for i := range src {
+		src[i] ^= 0x5A
 	}
 	if diff := tlEqual(p, fresh, ci.short); diff != "" {
 		ft.Fatalf("%s: decoded value differs at %s\nvalue: %s\nbytes: %x", ci, diff, show(), b1)
